@@ -73,3 +73,20 @@ Proof.
   destruct (exec_all data s1) as [[[] s2]|]; [|discriminate E].
   injection E as <-. repeat split.
 Qed.
+
+
+(* ---- the same at the level of shell commands ----------------------------------------------------------- *)
+From Hera.Model Require Import MiniParser Session.
+Lemma sess_step_mutate fuel code data st c : c <> CUndo -> c <> CNop ->
+  exists f, forall s, sess_step fuel code data st c s = mutate f s.
+Proof.
+  intros NU NN. destruct c; try (exfalso; congruence); eexists; intros s; reflexivity.
+Qed.
+Theorem session_undo fuel code data st c s s1 :
+  c <> CUndo -> c <> CNop ->
+  sess_step fuel code data st c s = Ok s1 ->
+  sess_step fuel code data st CUndo s1 = Ok s.
+Proof.
+  intros NU NN E. destruct (sess_step_mutate fuel code data st c NU NN) as [f Hf].
+  rewrite Hf in E. change (Ok (undo s1) = Ok s). f_equal. exact (undo_restores f s s1 E).
+Qed.
